@@ -168,3 +168,20 @@ def bounded_search(run, c, tier, reason, payload=None, skip_known=False):
         reported = True
         break
     return reported
+
+
+def check_lemmas(run, tier):
+    """thorough tier: re-check the Lean lemma library; quick tier: record that it was not re-checked this run"""
+    import subprocess
+    entry = dict(files=["lemmas/Cycle.lean", "lemmas/Filter.lean"], rechecked_this_run=False)
+    if tier == "thorough":
+        try:
+            p = subprocess.run([os.path.join(ROOT, "lemmas", "check.sh")], capture_output=True, text=True, timeout=1800)
+            entry.update(rechecked_this_run=True, ok=(p.returncode == 0), output=p.stdout[-600:])
+            if p.returncode != 0:
+                run.assumptions.append("UNCHECKED: a Lean lemma file did not compile in this run; the inductive axioms of pyvc/logic.py are then assumptions")
+        except Exception as e:
+            entry.update(rechecked_this_run=True, ok=False, output=str(e))
+    else:
+        run.assumptions.append("Lean lemma library (lemmas/*.lean) is re-checked in the thorough tier only; last committed state compiles")
+    run.coverage["lemmas_lean"] = entry
